@@ -285,9 +285,41 @@ def leaf_contracts():
     return cs
 
 
+def delegation_contracts():
+    """Matcher.get_variable / set_variable are the [A] interface the leaf functions see; their bodies hand the call to CsvPath's store functions unchanged"""
+    cs = []
+    CF["CsvPath"].update({"g_sv_calls": "int", "g_sv_name": "val", "g_sv_value": "val", "g_sv_tracking": "val", "g_gv_calls": "int", "g_gv_name": "val", "g_gv_tracking": "val",
+                          "g_gv_default": "val", "g_gv_result": "val"})
+    cs.append(Contract(target=f"{CP}::CsvPath.set_variable", interface=True, variant="logged", types={"name": "val", "value": "val", "tracking": "val"},
+                       modifies=["self.g_sv_calls", "self.g_sv_name", "self.g_sv_value", "self.g_sv_tracking"],
+                       ensures={"logged": "self.g_sv_calls == old(self.g_sv_calls) + 1 and same(self.g_sv_name, name) and same(self.g_sv_value, value) and same(self.g_sv_tracking, tracking)"},
+                       returns="none", class_fields=CF, assumptions=["CsvPath.set_variable is under its own contracts in this module (plain / tracked_existing / tracked_new)"]))
+    cs.append(Contract(target=f"{CP}::CsvPath.get_variable", interface=True, variant="logged", types={"name": "val", "tracking": "val", "set_if_none": "val"},
+                       modifies=["self.g_gv_calls", "self.g_gv_name", "self.g_gv_tracking", "self.g_gv_default"],
+                       ensures={"logged": "self.g_gv_calls == old(self.g_gv_calls) + 1 and same(self.g_gv_name, name) and same(self.g_gv_tracking, tracking) and "
+                                          "same(self.g_gv_default, set_if_none) and same(result, self.g_gv_result)"},
+                       returns="val", class_fields=CF, assumptions=["CsvPath.get_variable is under its own contracts in this module (plain / tracked_existing)"]))
+    cs.append(Contract(
+        target=f"{MATCHER}::Matcher.set_variable", variant="body", types={"name": "val", "value": "val", "tracking": "val"},
+        modifies=["self.csvpath.g_sv_calls", "self.csvpath.g_sv_name", "self.csvpath.g_sv_value", "self.csvpath.g_sv_tracking"],
+        ensures={"exactly_one_store_write_with_the_same_arguments": "self.csvpath.g_sv_calls == old(self.csvpath.g_sv_calls) + 1 and same(self.csvpath.g_sv_name, name) and "
+                                                                    "same(self.csvpath.g_sv_value, value) and same(self.csvpath.g_sv_tracking, tracking)"},
+        callee_variants={"CsvPath.set_variable": "logged"}, class_fields=CF, macros=MACROS, returns="none", native={"skip": True},
+        property_clauses={"exactly_one_store_write_with_the_same_arguments": "C03"}))
+    cs.append(Contract(
+        target=f"{MATCHER}::Matcher.get_variable", variant="body", types={"name": "val", "tracking": "val", "set_if_none": "val"},
+        modifies=["self.csvpath.g_gv_calls", "self.csvpath.g_gv_name", "self.csvpath.g_gv_tracking", "self.csvpath.g_gv_default"],
+        ensures={"exactly_one_store_read_with_the_same_arguments": "self.csvpath.g_gv_calls == old(self.csvpath.g_gv_calls) + 1 and same(self.csvpath.g_gv_name, name) and "
+                                                                   "same(self.csvpath.g_gv_tracking, tracking) and same(self.csvpath.g_gv_default, set_if_none)",
+                 "returns_what_the_store_returns": "same(result, self.csvpath.g_gv_result)"},
+        callee_variants={"CsvPath.get_variable": "logged"}, class_fields=CF, macros=MACROS, returns="val", native={"skip": True},
+        property_clauses={"exactly_one_store_read_with_the_same_arguments": "C03", "returns_what_the_store_returns": "C03"}))
+    return cs
+
+
 def contracts():
     extra = core.select(core.contracts(), ("CsvPath._consider_line", "LineMonitor.next_line", "CsvPath.raise_match_count_if"))
-    return store_contracts() + interfaces() + leaf_contracts() + extra
+    return store_contracts() + interfaces() + leaf_contracts() + delegation_contracts() + extra
 
 
 def bounded(tier, seed):
